@@ -302,6 +302,33 @@ def post_replay(x, prop, fault):
     return c13_post(x, fault) if prop == "C13" else c14_post(x, fault)
 
 
+def c13_realtime_cases(only=None):
+    """malformed replies in real-time mode while an external event is pending for the simulator
+    (the only way a time-based simulator has a foreign entry in its step queue)"""
+    from . import rt
+    from .choices import Chooser
+    out = []
+    for kind in ("none", "same", "float"):
+        for k in (0, 2, 3):       # steps 2 and 3 begin after the event has been set (at 0.25 s)
+            case = dict(kind=kind, k=k)
+            if only is not None and case != only:
+                continue
+            scen = dict(rt_factor=1, until=5,
+                        sims=[T("A", set_events=True, bad_next={str(k): kind})], conns=[],
+                        events=[("A", 0.25, "until-1")])
+            run, res, viol, lats = rt.execute(scen, False, Chooser([]), [0])
+            fault = dict(sid="A", k=k, what="next", kind=kind)
+
+            class X:
+                pass
+            x = X()
+            x.run, x.result, x.viol = run, res, viol
+            for v in c13_post(x, fault):
+                v = dict(v, msg=f"real-time, event pending: {v['msg']}", case=case)
+                out.append(v)
+    return out
+
+
 def real_process_supplement(rep):
     """Crash-point enumeration against a real sub-process simulator over real sockets
     (findings/realproc): the process exits while idle, in setup_done, in step, in get_data.
@@ -330,6 +357,11 @@ def real_process_supplement(rep):
 def replay(doc):
     import subprocess
     import sys
+    if doc.get("rt_case"):
+        v = c13_realtime_cases(only=doc["rt_case"])
+        for x in v:
+            print("REPRODUCED", x["kind"], x["msg"][:300])
+        return 1 if v else 0
     script = os.path.join(env.VERIF_DIR, "findings", "realproc", "run.py")
     r = subprocess.run([sys.executable, script, doc["point"]], text=True,
                        env=dict(os.environ, VERIF_REPO=env.REPO))
@@ -396,6 +428,10 @@ def check(prop, tier):
                                    post=dict(module="mc.faults", func="post_replay",
                                              args=[prop, r["fault"]]),
                                    inject="mc.faults"))
+    if prop == "C13":
+        for v in c13_realtime_cases():
+            rep.report(v, dict(kind="call", module="mc.faults", rt_case=v["case"]))
+            tot["jobs"] += 1
     realproc = None
     if prop == "C14" and tier == "thorough":
         realproc = real_process_supplement(rep)
